@@ -4,11 +4,16 @@
 M=$(readlink -f "$1"); NAME="$2"; IDS="$3"; TESTS="$4"
 D=$(mktemp -d /var/tmp/seed_XXXXXX)
 git -C /repo archive HEAD | tar -x -C "$D"
-cp "$M/demo.py" "$D/_demo.py"
-# demos insert os.getcwd() / their worktree into sys.path: run from the scratch copy root
-( cd "$D" && PYTHONPATH="$D" /venv/bin/python -W ignore _demo.py > "$D/_clean.out" 2>&1 ); RC_CLEAN=$?
+# the demonstration is run in the sub-agent's own worktree (demos check that the package resolves there);
+# the worktree must be idle (agent finished) and clean
+WT=$(dirname $(dirname "$M"))
+REL=$(realpath --relative-to="$WT" "$M")
+git -C "$WT" checkout -q -- . 2>/dev/null
+( cd "$WT" && /venv/bin/python -W ignore "$REL/demo.py" > "$D/_clean.out" 2>&1 ); RC_CLEAN=$?
+git -C "$WT" apply --whitespace=nowarn "$M/patch.diff" || { echo "PATCH DOES NOT APPLY IN WORKTREE"; }
+( cd "$WT" && /venv/bin/python -W ignore "$REL/demo.py" > "$D/_mut.out" 2>&1 ); RC_MUT=$?
+git -C "$WT" checkout -q -- .
 ( cd "$D" && git init -q . && git apply --whitespace=nowarn "$M/patch.diff" ) || { echo "PATCH DOES NOT APPLY"; rm -rf "$D"; exit 2; }
-( cd "$D" && PYTHONPATH="$D" /venv/bin/python -W ignore _demo.py > "$D/_mut.out" 2>&1 ); RC_MUT=$?
 echo "demo: clean rc=$RC_CLEAN mutated rc=$RC_MUT"
 tail -3 "$D/_mut.out" | cut -c1-200
 TRES="(not run)"
